@@ -764,6 +764,83 @@ def hazards(d: Descs, required):
     return sorted(t for t in required if d.in_target(t) and d.parent_of.get(t) and d.parent_of[t] not in required)
 
 
+KNOWN_HAZARD = "nested-kept-parent-pruned"
+
+
+def hazard_closure(d: Descs, hz):
+    """the hazard types and everything declared inside them"""
+    out, todo = set(), list(hz)
+    while todo:
+        t = todo.pop()
+        if t not in out:
+            out.add(t); todo += d.nested_of.get(t, [])
+    return out
+
+
+def top_ancestor(d: Descs, t):
+    while d.parent_of.get(t):
+        t = d.parent_of[t]
+    return t
+
+
+def hazard_tainted_files(d: Descs, hz, required):
+    """proto files whose python module cannot be used when the hazard types have no class: files with a kept message
+    that has a field of a hazard type, and (proto-plus builds one descriptor pool entry per file, dependencies first)
+    files with a kept message that has a field of a type of such a file"""
+    lost = hazard_closure(d, hz)
+    kept = [t for t in required if t in d.msgs]
+    tainted = {d.file_of[t] for t in kept if any(f.type_name.lstrip(".") in lost for f in d.msgs[t].field)}
+    more = True
+    while more:
+        more = False
+        for t in kept:
+            if d.file_of[t] in tainted:
+                continue
+            if any(d.file_of.get(f.type_name.lstrip(".")) in tainted for f in d.msgs[t].field if f.type_name):
+                tainted.add(d.file_of[t]); more = True
+    return tainted
+
+
+def hazard_import_symptom(d: Descs, hz, required, errors):
+    """the recorded import failures of the known finding: AttributeError, module '<pkg>.types.<file>' has no attribute
+    '<top-level message that declares a hazard type and was pruned>', or TypeError, couldn't resolve name '<hazard type>'
+    while the file's descriptor is built — and nothing else"""
+    import re
+    if not hz or not errors:
+        return False
+    tops = {top_ancestor(d, t) for t in hz}
+    want = {(os.path.basename(d.file_of[t])[:-len(".proto")], t.rsplit(".", 1)[1]) for t in tops}
+    lost = hazard_closure(d, hz)
+    tainted = hazard_tainted_files(d, hz, required)
+    for e in errors:
+        if len(e) >= 3 and e[1] == "TypeError":
+            # same cause, met by the protobuf runtime while the module is imported: the file's descriptor names the hazard type
+            m = re.fullmatch(r"Couldn't build proto file into descriptor pool: couldn't resolve name '([\w.]+)'", e[2].strip())
+            if m and (m.group(1) in lost or d.file_of.get(m.group(1)) in tainted):
+                continue        # the hazard type itself, or a type of a file whose descriptor could not be built because of it
+            return False
+        if len(e) < 3 or e[1] != "AttributeError":
+            return False
+        m = re.fullmatch(r"module 'acme\.lib_v1(?:\.\w+)*\.types\.(\w+)' has no attribute '(\w+)'", e[2])
+        if not m or (m.group(1), m.group(2)) not in want:
+            return False
+    return True
+
+
+def hazard_unusable_symptom(d: Descs, hz, required, bad):
+    """the recorded first-use failure of the known finding: TypeError 'NoneType' object is not callable, on classes of
+    a module that (transitively) needs a hazard type — and nothing else"""
+    if not hz or not bad:
+        return False
+    tainted = hazard_tainted_files(d, hz, required)
+    for b in bad:
+        if b.get("kind") == "error" or not b.get("full") or not str(b.get("error", "")).startswith("TypeError: 'NoneType' object is not callable"):
+            return False
+        if d.file_of.get(b["full"]) not in tainted:
+            return False
+    return True
+
+
 def features(spec, d, listed, req_types):
     fs = set()
     for f in spec["files"]:
@@ -876,8 +953,11 @@ def oracle_schema(ctx, spec, d, api0, api_sel, listed, internal, payload):
                              f"{s0.methods[mk].client_method_name} in the full library", payload)
         orphans = sorted(t for t in got_types if d.parent_of.get(t) and d.parent_of[t] not in got_types)
         if orphans:
-            ctx.fail("nested-kept-parent-pruned",
-                     f"nested types kept without the message that declares them: {orphans[:4]} (no python class can hold them)", payload)
+            # the known finding is: a nested type the listed RPCs NEED, whose declaring message they do not need.  Any other
+            # orphan (its declaring message is needed and was pruned, or the orphan itself is not needed) is something else.
+            ctx.fail(KNOWN_HAZARD if set(orphans) <= set(hz) else "nested-orphan-unexpected",
+                     f"nested types kept without the message that declares them: {orphans[:4]} (no python class can hold them)"
+                     + ("" if set(orphans) <= set(hz) else f"; only {hz[:4]} are needed-without-their-parent in this input"), payload)
     else:
         if got_methods != all_methods0 or got_services != set(api0.services):
             ctx.fail("internal-omits", f"internal mode dropped RPCs/services: {sorted(all_methods0 - got_methods)[:5]}", payload)
@@ -1351,7 +1431,7 @@ def t3_api(ctx, r, spec, nvar, label, variants=None):
         req_types, req_methods, req_services = d.reach(listed)
         required = {t for t in req_types if d.in_target(t)}
         hz = hazards(d, req_types) if not internal else []
-        hkey = "nested-kept-parent-pruned" if hz else None
+        known_hit = False
         feats = features(spec, d, listed, req_types)
         ctx.case({"t3": True, "listed": listed, "internal": internal, "features": feats, "rest": bool(spec.get("rest")), "mixins": bool(spec.get("mixins"))},
                  distinct_key=["t3", json.dumps(listed), internal, json.dumps(spec, sort_keys=True)])
@@ -1368,10 +1448,14 @@ def t3_api(ctx, r, spec, nvar, label, variants=None):
         lib = run_library(spec, files, api_sel, doc, plan, names)
         ctx.traces += 1
         if "gen_error" in lib:
-            ctx.fail(hkey or ("generation-crash:" + lib["gen_error"][0]), f"generator raised {lib['gen_error']}", payload)
+            ctx.fail("generation-crash:" + lib["gen_error"][0], f"generator raised {lib['gen_error']}", payload)
             continue
         if lib["import"].get("errors") or "child_error" in lib["import"]:
-            ctx.fail(hkey or "import-error", f"the selective library does not import: {str(lib['import'].get('errors') or lib['import'])[:300]}", payload)
+            known = "child_error" not in lib["import"] and hazard_import_symptom(d, hz, required, lib["import"].get("errors"))
+            ctx.fail(KNOWN_HAZARD if known else "import-error",
+                     f"the selective library does not import: {str(lib['import'].get('errors') or lib['import'])[:300]}", payload)
+            if known:
+                ctx.count("hazard", "t3:nested-type-without-enclosing-message")
             continue
         # ---- services and RPC surface
         want_rpcs = {}
@@ -1441,13 +1525,20 @@ def t3_api(ctx, r, spec, nvar, label, variants=None):
         # ---- types
         got_types, bad = emitted_types(lib, d)
         if "classes" not in lib["types"]:
-            ctx.fail(hkey or "types-import", f"types package: {lib['types']}", payload)
+            ctx.fail("types-import", f"types package: {lib['types']}", payload)
             continue
         if bad:
-            ctx.fail(hkey or "type-unusable", f"emitted classes that cannot be instantiated: {[b.get('full') or b.get('name') for b in bad][:4]} ({bad[0].get('error')})", payload)
+            known = hazard_unusable_symptom(d, hz, required, bad)
+            known_hit |= known
+            ctx.fail(KNOWN_HAZARD if known else "type-unusable",
+                     f"emitted classes that cannot be instantiated: {[b.get('full') or b.get('name') for b in bad][:4]} ({bad[0].get('error')})", payload)
         want_types = full_types if internal else required
         if want_types - got_types:
-            ctx.fail(hkey or ("internal-omits" if internal else "type-missing"), f"classes missing from the library: {sorted(want_types - got_types)[:5]}", payload)
+            # known: exactly the needed nested types whose declaring message is not needed (and what they declare) have no class
+            known = bool(hz) and (want_types - got_types) <= hazard_closure(d, hz)
+            known_hit |= known
+            ctx.fail(KNOWN_HAZARD if known else ("internal-omits" if internal else "type-missing"),
+                     f"classes missing from the library: {sorted(want_types - got_types)[:5]}", payload)
         allowed = want_types if not hz else {t for t in d.with_enclosing(req_types) if d.in_target(t)}
         if got_types - allowed:
             ctx.fail("type-extra", f"classes the listed RPCs cannot reach: {sorted(got_types - allowed)[:5]}", payload)
@@ -1459,7 +1550,9 @@ def t3_api(ctx, r, spec, nvar, label, variants=None):
                     mtypes |= {g.names[i] for i in p.get("emitted", p["messages"] + p["enums"])}
             if mtypes != got_types:
                 ctx.disagree("T3:c16.types", f"model emits {sorted(mtypes ^ got_types)[:5]} differently from the emitted types package", payload)
-        if hz:
+        if known_hit:
+            # the types modules of this library are known to be unusable: calls cannot be compared.  (A hazard input on
+            # which the recorded symptom did NOT show goes on to the wire comparison like any other.)
             ctx.count("hazard", "t3:nested-type-without-enclosing-message")
             continue
         # ---- wire behaviour of the kept RPCs vs the full library: sync gRPC, asyncio gRPC, REST
